@@ -172,6 +172,9 @@ def observe_cont(w, j):
     ob = {"delta": [float(c.delta)] if c.pdimension == 1 else [float(x) for x in c.delta], "elems": list(w.celems[j]),
           "eval": call(lambda: pl(c.evalpts))}
     ob["bbox"] = call(lambda: [list(x) for x in c.bbox]) if len(c) else {"ok": [[], []]}
+    if c.pdimension > 1:
+        # the per-direction views of the sampling density must be the components of the container's delta
+        ob["delta_dirs"] = [float(getattr(c, "delta_" + SUF[d])) for d in range(c.pdimension)]
     if c.pdimension == 2:
         def tv():
             vs = list(c.vertices)
@@ -540,6 +543,8 @@ def fresh_check_cont(w, j, ob, label):
         fc.delta = ob["delta"][0] if c.pdimension == 1 else ob["delta"]
     except Exception as e:
         return "%s: a fresh container cannot be built (%s: %s)" % (label, type(e).__name__, e)
+    if "delta_dirs" in ob and ob["delta_dirs"] != ob["delta"]:
+        return "%s delta_u/v/w of the container are %s, its delta is %s" % (label, ob["delta_dirs"], ob["delta"])
     m = cmp_view("container evalpts", ob["eval"], call(lambda: pl(fc.evalpts)))
     if m:
         return "%s %s" % (label, m)
